@@ -384,6 +384,14 @@ pub fn gen(r: &mut Rng, thorough: bool) -> Vec<(String, String)> {
             v.push(("triangle_local".into(), format!("{} {} {} {}", d3::hp(&ta), d3::hp(&tb), d3::hp(&tc), d3::hv(&d))));
             v.push(("triangle_local".into(), format!("{} {} {} {}", d3::hp(&tc), d3::hp(&ta), d3::hp(&tb), d3::hv(&d))));
             v.push(("triangle_edge".into(), format!("{} {} {} {}", d3::hp(&tb), d3::hp(&tc), d3::hp(&ta), d3::hv(&d))));
+            // all six vertex orders of the tied triangle (two- and three-way ties: the branch order decides), plain and rounded
+            let tv = [ta, tb, tc];
+            for pm in [[0usize, 1, 2], [0, 2, 1], [1, 0, 2], [1, 2, 0], [2, 0, 1], [2, 1, 0]] {
+                let ts = format!("{} {} {}", d3::hp(&tv[pm[0]]), d3::hp(&tv[pm[1]]), d3::hp(&tv[pm[2]]));
+                v.push(("triangle_local".into(), format!("{} {}", ts, d3::hv(&d))));
+                v.push(("triangle_edge".into(), format!("{} {}", ts, d3::hv(&d))));
+                if pm[0] == it % 3 { v.push(("roundtriangle_local".into(), format!("{} {} {}", ts, hx(r1), d3::hv(&d)))); }
+            }
             v.push(("cloud_id".into(), format!("{} {}", hpts3(&[tc, ta, b, tb]), d3::hv(&d))));
             let d2v = gen_dir2(r, true);
             let p2 = d2::Vector::new(-d2v.y, d2v.x) * *r.pick(&[0.5, 1.0, -1.0, 2.0]);
